@@ -333,3 +333,9 @@ Proof.
   exists r1, hd, r2, n. repeat split; try assumption.
   subst n. rewrite name_eq_str_spec in En. apply name_eq_fold. exact En.
 Qed.
+
+(* the async clients arm the call with the configured query lifetime and each attempt with the
+   configured query timeout, on all three runtimes *)
+Theorem async_durations_are_configured smol cfg_lifetime cfg_qt :
+  async_call_duration smol cfg_lifetime cfg_qt = cfg_lifetime /\ async_attempt_duration smol cfg_lifetime cfg_qt = cfg_qt.
+Proof. destruct smol; split; reflexivity. Qed.
